@@ -48,6 +48,10 @@ func cmdGen(args []string) {
 			b = g.behC13()
 		case "C01":
 			b = g.behC01()
+		case "C12":
+			b = g.behC12()
+		case "C19":
+			b = g.behC19()
 		default:
 			if fn, ok := genFns[*prop]; ok {
 				b = fn(g)
@@ -647,6 +651,94 @@ func (g *gen) behC01() M {
 			st["nowait"] = true
 		}
 		steps = append(steps, st)
+	}
+	return M{"cfg": cfg, "steps": steps}
+}
+
+// behC12: startup packets with random keys/values (duplicates, empties, long
+// values), random configured maps, version, auth, Cancel.
+func (g *gen) behC12() M {
+	cfg := baseCfg()
+	cfg["limit"] = 8192
+	cfg["mw"] = []any{"ok"}
+	if g.chance(0.3) {
+		cfg["auth"] = "clear"
+	}
+	if g.chance(0.5) {
+		cfg["version"] = g.pick("15.2", "9.6", "psql-wire")
+	}
+	params := M{}
+	for i := 0; i < g.rng.Intn(4); i++ {
+		params[g.pick("a", "b", "TimeZone", "server_encoding", "client_encoding", "is_superuser", "session_authorization", "server_version", "DateStyle")] = g.pick("", "x", g.text(20))
+	}
+	cfg["params"] = params
+	steps := []any{}
+	if g.chance(0.2) {
+		steps = append(steps, send(M{"t": "SSLRequest"}))
+	}
+	if g.chance(0.1) {
+		steps = append(steps, send(M{"t": "Cancel"}))
+		return M{"cfg": cfg, "steps": steps}
+	}
+	kvs := []any{}
+	for i := 0; i < g.rng.Intn(7); i++ {
+		v := g.pick("", "x", g.text(30))
+		if g.chance(0.05) {
+			v = g.text(3000)
+		}
+		kvs = append(kvs, M{"k": g.pick("user", "user", "database", "application_name", "client_encoding", "k", g.text(6)), "v": v})
+	}
+	steps = append(steps, send(M{"t": "Startup", "term": !g.chance(0.1), "kvs": kvs}))
+	if cfg["auth"] == "clear" {
+		steps = append(steps, send(M{"t": "p", "pw": "good"}))
+	}
+	steps = append(steps, send(M{"t": "Q", "q": g.trivialQ()}))
+	return M{"cfg": cfg, "steps": steps}
+}
+
+// behC19: session lifecycle: up to 6 middlewares, failing anywhere, longer
+// command histories mixing both protocols, terminate hook on/off.
+func (g *gen) behC19() M {
+	cfg := baseCfg()
+	cfg["limit"] = 8192
+	nmw := g.rng.Intn(7)
+	mw := []any{}
+	for i := 0; i < nmw; i++ {
+		if g.chance(0.1) {
+			mw = append(mw, "fail")
+		} else {
+			mw = append(mw, "ok")
+		}
+	}
+	cfg["mw"] = mw
+	if g.chance(0.3) {
+		cfg["auth"] = "clear"
+	}
+	if g.chance(0.6) {
+		cfg["term"] = "ok"
+	}
+	steps := []any{startup(g.text(8))}
+	if cfg["auth"] == "clear" {
+		steps = append(steps, send(M{"t": "p", "pw": "good"}))
+	}
+	n := g.rng.Intn(10)
+	for i := 0; i < n; i++ {
+		switch g.rng.Intn(4) {
+		case 0:
+			steps = append(steps, send(M{"t": "P", "name": "", "q": g.trivialQ(), "noids": 0}),
+				send(M{"t": "B", "portal": "", "stmt": "", "pfmt": []any{}, "params": []any{}, "rfmt": []any{}}),
+				send(M{"t": "E", "portal": "", "max": 0}), send(M{"t": "S"}))
+		default:
+			q := g.trivialQ()
+			if g.chance(0.3) {
+				g.id++
+				q["stmts"] = append(q["stmts"].([]any), M{"id": g.id, "cols": []any{}, "oids": []any{}, "prog": []any{M{"op": "complete", "tag": "OK2"}, M{"op": "ret", "r": "nil"}}})
+			}
+			steps = append(steps, send(M{"t": "Q", "q": q}))
+		}
+	}
+	if g.chance(0.6) {
+		steps = append(steps, send(M{"t": "X"}))
 	}
 	return M{"cfg": cfg, "steps": steps}
 }
